@@ -17,6 +17,7 @@ import (
 	openfgav1 "github.com/openfga/api/proto/openfga/v1"
 
 	"github.com/openfga/openfga/internal/build"
+	"github.com/openfga/openfga/internal/verifhook"
 	"github.com/openfga/openfga/pkg/storage/cache/keys"
 	"github.com/openfga/openfga/pkg/tuple"
 )
@@ -351,6 +352,9 @@ func InvariantCacheKey(storeID, modelID string, ctx *structpb.Struct, contextual
 
 	digest := keys.GetDigest()
 	defer digest.Close()
+	if verifhook.Enabled {
+		verifhook.Event("key.pre", "invariant", string(builder.Bytes()))
+	}
 	digest.Write(builder.Bytes())
 	return digest.Sum64()
 }
